@@ -7,14 +7,15 @@ LEVEL = "model_checking"
 def run(tier, seed, limit=0):
     chk = engine.Check("C16", tier, seed)
     scs = (fam_tree.family_T(tier, seed, faults=True, probes=True, tag="T16") + fam_tree.family_ctor_fault(tier, seed)
-           + fam_fault.family_F(tier, seed) + fam_fault.family_softlist(tier, seed))
+           + fam_fault.family_F(tier, seed) + fam_fault.family_softlist(tier, seed) + fam_fault.family_nested_fault(tier, seed))
     if limit:
         scs = scs[:limit]
     chk.run_scenarios(scs, "Trace_VscRand",
                       nontrivial=lambda r: any(e.get("fired") or e.get("exc") not in (None, "none") for e in r["events"]))
     chk.run_mc("B_Ctor", {"MaxOps": 3 if tier == "quick" else 4}, label="construction stacks idle between calls")
     return chk.finish(LEVEL, "histories with a user exception injected at every kind of position (pre/post callbacks of any composite, "
-                      "with-block bodies, constraint bodies during construction) and calls made unsatisfiable, followed by further "
+                      "with-block bodies, constraint bodies during construction - also INSIDE nested if / else / implies / foreach contexts, every "
+                      "statement position of the nested blocks) and calls made unsatisfiable, followed by further "
                       "constructions, calls and pin-probe truth tables; after EVERY event TLC checks the five construction stacks, the "
                       "leftover override nodes and solver handles are zero, and that the rest of the trace is a behaviour of the "
                       "specification from the unchanged state; non-trivial = a fault fired or a call failed",
